@@ -3256,3 +3256,43 @@ for _m in ("detach", "cpu", "numpy", "float", "double", "clone", "type",
            "to"):
     METHODS[("seq", _m)] = (lambda I, b: E.LibFunc(
         "tensor.identity", lambda I2, *a, **k: b))
+
+
+# ---- C08 proposal layer: abstract reparameterisation --------------------
+# physical space P <-> primed space X; Rf/Ri with log-Jacobians RJ/RiJ.
+# The bijection laws are *assumed* of the configured reparameterisation
+# (C07 proves them for the elementary maps; FlowProposal.verify_rescaling
+# tests them at run time); they are only used to restate results.
+PS_ = usort("P")
+RP_F = z3.Function("Rf", PS_, XS_)
+RP_J = z3.Function("RJ", PS_, z3.RealSort())
+RP_I = z3.Function("Ri", XS_, PS_)
+RP_IJ = z3.Function("RiJ", XS_, z3.RealSort())
+INB = z3.Function("InBounds", PS_, z3.BoolSort())
+
+
+def _rescale_axioms():
+    p = z3.Const("p!rp", PS_)
+    x = z3.Const("x!rp", XS_)
+    return [
+        z3.ForAll([p], z3.And(RP_I(RP_F(p)) == p,
+                              RP_IJ(RP_F(p)) == -RP_J(p)),
+                  patterns=[RP_F(p)]),
+        z3.ForAll([x], z3.And(RP_F(RP_I(x)) == x,
+                              RP_J(RP_I(x)) == -RP_IJ(x)),
+                  patterns=[RP_I(x)]),
+    ]
+
+
+_BG.extend(_rescale_axioms())
+for _nm, _fn in (("Rf", RP_F), ("RJ", RP_J), ("Ri", RP_I), ("RiJ", RP_IJ),
+                 ("InBounds", INB)):
+    LIB["spec." + _nm] = E.LibFunc(
+        "spec." + _nm, (lambda I, v, _fn=_fn: _fn(_val(v))))
+
+
+@method("seq", "ndim", prop=True)
+def _seq_ndim(I, b):
+    v = _val(b)
+    # a sequence of abstract points is a 2-d array (one row per point)
+    return 2 if str(v.elem).startswith("Sort(") else 1
